@@ -330,7 +330,7 @@ pub enum CfgFail {
 pub enum CfgCall {
     ReadSettings,
     WriteSettings(SimSettings),
-    SetTimeout(u64),
+    SetTimeout(u128),
 }
 
 #[derive(Clone, Debug)]
@@ -430,7 +430,7 @@ impl<W: Wire> SerialDevice for SimPort<W> {
         if self.dev.fail == CfgFail::SetTimeout {
             return Err(serial_core::Error::new(ERR_KINDS[self.dev.fail_kind], "simulated: set_timeout failed"));
         }
-        self.dev.calls.push(CfgCall::SetTimeout(timeout.as_millis() as u64));
+        self.dev.calls.push(CfgCall::SetTimeout(timeout.as_nanos()));
         self.dev.timeout = timeout;
         Ok(())
     }
